@@ -223,3 +223,94 @@ end Chalk.FixedPoint.C05fp
 #print axioms Chalk.FixedPoint.C05fp.lfp_of_goodCache
 #print axioms Chalk.FixedPoint.C05fp.retract_hyp
 #print axioms Chalk.FixedPoint.C05fp.knot_hyp
+
+/-! ## caching disabled (`cache = none`)
+
+  Same statements, same bounds (`dom.length ≤ overflowDepth`, `2 ≤ rounds`): without the cache the
+  nodes of a completed component are dropped (`rollback_to(dfn)`) instead of cached; nothing else
+  changes in the argument (`After.finish_discard`).  The bounds stay tight. -/
+
+namespace Chalk.FixedPoint.C05fp
+open Chalk.FixedPoint.Cyc
+
+/-- the polarity-generic statement, caching enabled or disabled: every cache entry correct
+    (vacuous for `cache = none`) before and after, the caching mode is kept -/
+theorem fixed_point_correct_any (c : Bool) (inst : Instance) (dom : List Nat) (hyp : Hyp c inst dom)
+    (overflowDepth rounds : Nat) (hov : dom.length ≤ overflowDepth) (hr : 2 ≤ rounds)
+    (s : St) (hq : s.oracle = [] ∧ s.oracleDefault = true) (hok : CacheOK c inst s)
+    (g : Nat) (hg : g ∈ dom) :
+    ∃ v s', solveRootGoal inst (Cfg.current overflowDepth rounds) g s = .ok v s' ∧ Corr c inst g v ∧
+      s'.stack = [] ∧ s'.graph = [] ∧ CacheOK c inst s' ∧ s'.cache.isSome = s.cache.isSome :=
+  solveRootGoal_correct_any hyp rfl rfl rfl hov hr s hq hok g hg
+
+/-- (A) without cache -/
+theorem coinductive_cycles_correct_nocache (inst : Instance) (dom : List Nat) (hyp : Hyp true inst dom)
+    (overflowDepth rounds : Nat) (hov : dom.length ≤ overflowDepth) (hr : 2 ≤ rounds)
+    (s : St) (hq : s.oracle = [] ∧ s.oracleDefault = true) (hnc : s.cache = none)
+    (g : Nat) (hg : g ∈ dom) :
+    ∃ v s', solveRootGoal inst (Cfg.current overflowDepth rounds) g s = .ok v s' ∧
+      (v = .unique ↔ InGfp inst g) ∧ (v = .noSolution ↔ ¬ InGfp inst g) ∧ v ≠ .ambig ∧
+      s'.stack = [] ∧ s'.graph = [] ∧ s'.cache = none := by
+  obtain ⟨v, s', h1, h2, h3, h4, h5⟩ :=
+    solveRootGoal_correct_nocache (cfg := Cfg.current overflowDepth rounds) hyp rfl rfl rfl hov hr s hq hnc g hg
+  refine ⟨v, s', h1, ?_, ?_, ?_, h3, h4, h5⟩
+  all_goals rcases (corr_true inst g v).mp h2 with ⟨e, ht⟩ | ⟨e, ht⟩ <;> subst e <;> simp [ht]
+
+/-- (B) without cache -/
+theorem inductive_cycles_correct_nocache (inst : Instance) (dom : List Nat) (hyp : Hyp false inst dom)
+    (overflowDepth rounds : Nat) (hov : dom.length ≤ overflowDepth) (hr : 2 ≤ rounds)
+    (s : St) (hq : s.oracle = [] ∧ s.oracleDefault = true) (hnc : s.cache = none)
+    (g : Nat) (hg : g ∈ dom) :
+    ∃ v s', solveRootGoal inst (Cfg.current overflowDepth rounds) g s = .ok v s' ∧
+      (v = .unique ↔ InLfp inst g) ∧ (v = .noSolution ↔ ¬ InLfp inst g) ∧ v ≠ .ambig ∧
+      s'.stack = [] ∧ s'.graph = [] ∧ s'.cache = none := by
+  obtain ⟨v, s', h1, h2, h3, h4, h5⟩ :=
+    solveRootGoal_correct_nocache (cfg := Cfg.current overflowDepth rounds) hyp rfl rfl rfl hov hr s hq hnc g hg
+  refine ⟨v, s', h1, ?_, ?_, ?_, h3, h4, h5⟩
+  all_goals rcases (corr_false inst g v).mp h2 with ⟨e, ht⟩ | ⟨e, ht⟩ <;> subst e <;> simp [ht]
+
+/-- (A) for a whole history on a solver without cache -/
+theorem coinductive_history_correct_nocache (inst : Instance) (dom : List Nat) (hyp : Hyp true inst dom)
+    (overflowDepth rounds : Nat) (hov : dom.length ≤ overflowDepth) (hr : 2 ≤ rounds)
+    (gs : List Nat) (hd : ∀ g, g ∈ gs → g ∈ dom) (g : Nat) (hg : g ∈ dom) :
+    ∃ v, solveOn inst (Cfg.current overflowDepth rounds) g
+        (runHistory inst (Cfg.current overflowDepth rounds) (gs.map Call.plain) (St.fresh false)) = .value v ∧
+      (v = .unique ↔ InGfp inst g) ∧ (v = .noSolution ↔ ¬ InGfp inst g) := by
+  obtain ⟨v, h1, h2⟩ :=
+    history_correct_nocache (cfg := Cfg.current overflowDepth rounds) hyp rfl rfl hov hr gs hd g hg
+  refine ⟨v, h1, ?_, ?_⟩
+  all_goals rcases (corr_true inst g v).mp h2 with ⟨e, ht⟩ | ⟨e, ht⟩ <;> subst e <;> simp [ht]
+
+/-- (B) for a whole history on a solver without cache -/
+theorem inductive_history_correct_nocache (inst : Instance) (dom : List Nat) (hyp : Hyp false inst dom)
+    (overflowDepth rounds : Nat) (hov : dom.length ≤ overflowDepth) (hr : 2 ≤ rounds)
+    (gs : List Nat) (hd : ∀ g, g ∈ gs → g ∈ dom) (g : Nat) (hg : g ∈ dom) :
+    ∃ v, solveOn inst (Cfg.current overflowDepth rounds) g
+        (runHistory inst (Cfg.current overflowDepth rounds) (gs.map Call.plain) (St.fresh false)) = .value v ∧
+      (v = .unique ↔ InLfp inst g) ∧ (v = .noSolution ↔ ¬ InLfp inst g) := by
+  obtain ⟨v, h1, h2⟩ :=
+    history_correct_nocache (cfg := Cfg.current overflowDepth rounds) hyp rfl rfl hov hr gs hd g hg
+  refine ⟨v, h1, ?_, ?_⟩
+  all_goals rcases (corr_false inst g v).mp h2 with ⟨e, ht⟩ | ⟨e, ht⟩ <;> subst e <;> simp [ht]
+
+/-- the bounds are the same and stay tight without the cache -/
+theorem bounds_tight_nocache :
+    solveOn (retract true) (Cfg.current 4 1) 0 (St.fresh false) = .panic .fuelRounds ∧
+    solveOn (retract true) (Cfg.current 4 2) 0 (St.fresh false) = .value .noSolution ∧
+    solveOn (knot true) (Cfg.current 2 2) 0 (St.fresh false) = .panic .overflow ∧
+    solveOn (knot true) (Cfg.current 3 2) 0 (St.fresh false) = .value .unique := by decide
+
+/-- concrete runs without cache -/
+example : outcomes (retract true) (Cfg.current 4 2) [Call.plain 0, Call.plain 2] (St.fresh false) =
+    [.value .noSolution, .value .noSolution] := by decide
+example : outcomes (knot false) (Cfg.current 3 2) [Call.plain 2, Call.plain 0, Call.plain 1] (St.fresh false) =
+    [.value .noSolution, .value .noSolution, .value .noSolution] := by decide
+
+end Chalk.FixedPoint.C05fp
+
+#print axioms Chalk.FixedPoint.C05fp.fixed_point_correct_any
+#print axioms Chalk.FixedPoint.C05fp.coinductive_cycles_correct_nocache
+#print axioms Chalk.FixedPoint.C05fp.inductive_cycles_correct_nocache
+#print axioms Chalk.FixedPoint.C05fp.coinductive_history_correct_nocache
+#print axioms Chalk.FixedPoint.C05fp.inductive_history_correct_nocache
+#print axioms Chalk.FixedPoint.C05fp.bounds_tight_nocache
